@@ -1,18 +1,24 @@
 """C02: the assembled LP means what the asset documentation says (reference equivalence)."""
 import common as C
 import gen
+import modelspec as M
 from props import util
 from props.C20 import ref_oracle
 
 THEOREMS = ['C02_split_range', 'C02_split_cost', 'C02_contract_limits', 'C02_transport_flows', 'C02_storage_recursion',
-            'C02_holding_cost', 'C02_take_prorated', 'C02_portfolio_blocks']
+            'C02_holding_cost', 'C02_take_prorated', 'C02_portfolio_blocks',
+            'C02_lp_to_reference', 'C02_reference_to_lp', 'C02_optimum_is_reference_optimum', 'C02_every_point_is_blocks',
+            'C02_transport_unit', 'C02_storage_unit', 'C02_contract_unit', 'C02_generated_portfolio_under_theorems']
+REF_NAMES = ['hypotheses of the instance theorems hold for every asset (unit_hyps)', 'asset names distinct', 'x has one entry per model variable',
+             'EAO value = - textbook cost of the decoded solution', 'reported dispatch = textbook flows of the decoded solution',
+             'textbook flows balance at every node and step']
 CFG = {'p_coarse': 0.0, 'p_periodic': 0.0, 'T': (3, 9), 'n_assets': (1, 4), 'nodes': (1, 3), 'p_window': 0.4, 'p_wacc': 0.5, 'p_market': 0.9,
        'p_inflow': 0.4, 'p_spread': 0.6, 'p_storage_price': 0.0, 'tzs': [None, None, None, 'CET'], 'units': ['h', 'h', 'd', 'min'],
        'kinds': {'SimpleContract': 2, 'Contract': 3, 'Transport': 2, 'Storage': 4, 'MultiCommodityContract': 2, 'ExtendedTransport': 2}}
 
 
 def run(ctx):
-    if not ctx.proof_gate(THEOREMS, ['Ref.vo']):
+    if not ctx.proof_gate(THEOREMS, ['Ref.vo', 'Reference.vo', 'RefCorr.vo']):
         return
     n = 80 if ctx.tier == 'quick' else 600
     specs = util.corpus(ctx.prop) + gen.gen_many(ctx.seed, n, CFG, 'c02_')
@@ -34,3 +40,37 @@ def run(ctx):
         ref_oracle(ctx, sp, o, 'optimum of the textbook formulation (rate x step length, discounting by elapsed years, level recursion, prorated takes)')
         ctx.sample({'spec': sp})
     util.asset_corr(ctx, specs, parts, 'C02')
+    # ---- the composition theorems applied: portfolios made only of classes covered by the instance theorems (fine grid).  Coq evaluates
+    # the hypotheses of the theorems on the model of the portfolio (so C02_optimum_is_reference_optimum speaks about it) and the textbook
+    # program -- cost, flows, nodal balance -- on what the implementation returned
+    cov = gen.gen_many(ctx.seed, n // 2, dict(CFG, kinds={'SimpleContract': 3, 'Transport': 2, 'Storage': 4}, p_storage_price=0.2), 'c02t_')
+    pool = [sp for sp in specs if not sp['id'].startswith('c02L_')] + ctx.specs(cov)
+    have = {sp['id']: o for sp, o in zip(specs, res)}
+    todo = [sp for sp in pool if sp['id'] not in have]
+    for sp, o in zip(todo, C.run_impl('reference', todo)):
+        have[sp['id']] = o
+    exprs, owners = [], []
+    for sp in pool:
+        o = have[sp['id']]
+        terms = [M.uspec_term(a, sp, 'G') for a in sp['assets']]
+        if any(t is None for t in terms):
+            ctx.count('composition: portfolio has a class outside the instance theorems')
+            continue
+        if o.get('status') != 'ok' or o.get('solve') != 'optimal' or not o.get('out'):
+            ctx.count('composition: not solved')
+            continue
+        tab = util.dispatch_table(o, o['out']['dispatch'])
+        exprs.append('(let G := %s in c02_ref_case G %s %s %s %s %s %s %s)' % (
+            M.grid_term(sp['grid']), C.lst(terms), C.lst([C.s(x) for x in o['nodes']]), C.lst([C.nat(i) for i in o['I']]),
+            C.qvec(o['x']), C.q(o['value']), C.lst(['(%s, %s, %s)' % (C.s(a), C.s(nn), C.qvec(v)) for a, nn, v in tab]), C.q(2e-6)))
+        owners.append(sp)
+        ctx.count('composition: evaluated')
+    vals = C.run_coq_exprs('C02r', 'Num LP Cert Mapping Dcf Grid Assets StorageProofs Portfolio Ref Reference Corr RefCorr', exprs, chunk=6)
+    for sp, v in zip(owners, vals):
+        ctx.cov['correspondence']['cases'] += 1
+        ctx.cov['correspondence']['components_compared'] += len(REF_NAMES)
+        ctx.cov['instances_validated'] += 1
+        for nm, ok in zip(REF_NAMES, v):
+            if not ok:
+                ctx.cov['correspondence']['disagreements'] += 1
+                ctx.broken('validator-rejected', {'spec': sp, 'theorem_or_correspondence': 'textbook program of Reference.v on the implementation result: ' + nm})
